@@ -304,8 +304,12 @@ def _worker_init(modname):
     signal.signal(signal.SIGALRM, _alarm)
 
 
-def _worker_run(case):
-    tmo = getattr(_MOD, "CASE_TIMEOUT", 60)
+def _worker_run_slow(case):
+    return _worker_run(case, scale=4)
+
+
+def _worker_run(case, scale=1):
+    tmo = getattr(_MOD, "CASE_TIMEOUT", 60) * scale
     signal.alarm(tmo)
     try:
         return _MOD.run_impl(case)
@@ -323,7 +327,15 @@ def run_impl_all(mod, cases):
     ctx = mp.get_context("fork")
     n = min(NPROC, max(1, len(cases)))
     with ctx.Pool(n, initializer=_worker_init, initargs=(mod.__name__,)) as pool:
-        return pool.map(_worker_run, cases, chunksize=max(1, len(cases) // (n * 8)))
+        obss = pool.map(_worker_run, cases, chunksize=max(1, len(cases) // (n * 8)))
+    # a case that ran into the wall-clock limit is run again, alone and with four times the limit: an overloaded machine
+    # is not a hang of the implementation (a real hang hangs again and is reported)
+    slow = [i for i, o in enumerate(obss) if isinstance(o, dict) and o.get("harness_error") == "Hang"]
+    if slow:
+        with ctx.Pool(min(2, len(slow)), initializer=_worker_init, initargs=(mod.__name__,)) as pool:
+            for i, o in zip(slow, pool.map(_worker_run_slow, [cases[i] for i in slow], chunksize=1)):
+                obss[i] = o
+    return obss
 
 
 # ----------------------------------------------------------------------------
